@@ -179,6 +179,9 @@ pub fn messages() -> Vec<Msg> {
     v.push(m);
     // cookie values that themselves contain '=' (base64 padding, nested key=value), an empty value, a bare name
     v.push(base_request(vec![("cookie", "sid=YWJjZA==; theme=dark"), ("cookie", "prefs=lang=en; e=; bare; =v"), ("user-agent", "x")]));
+    // headers of the "common" lists sent with an empty value: present, not absent
+    v.push(base_request(vec![("accept", ""), ("accept-language", ""), ("user-agent", "x"), ("accept-encoding", "")]));
+    v.push(base_response(200, vec![("content-type", ""), ("date", ""), ("server", "s")]));
     for method in ["POST", "OPTIONS", "DELETE"] {
         let mut m = base_request(vec![("content-length", "3")]);
         m.method = s(method);
